@@ -784,3 +784,122 @@ def arr_result_count(case):
     for x in case["dims_r"]:
         cnt *= x
     return cnt
+
+
+# ------------------------------------------------------------------ string operands ----------
+# String-valued and string-consuming operations (front/constred.c folds string + string; the
+# others are evaluated by the VM whatever the operand form, which is exactly what the
+# literal-vs-variable comparison has to confirm): s + s, s + s + s, s + char, char + s,
+# s + number, number + s, s == s, s != s, length(s), s[i].
+
+STR_VALUES = ["", "a", "abc", " ", "x" * 300, "he said \"hi\"", "tab\there\nnew line", "back\\slash \\n",
+              "\"", "ends with quote\"", "0", "  padded  ", "".join(chr(33 + (i % 90)) for i in range(400)).replace("\\", "/").replace("\"", "'")]
+CHAR_VALUES = ["a", "Z", "0", " ", "~"]
+STR_OPS = {"cat": ("s", "s"), "cat3": ("s", "s", "s"), "cat_sc": ("s", "c"), "cat_cs": ("c", "s"),
+           "cat_sn": ("s", "n"), "cat_ns": ("n", "s"), "eq": ("s", "s"), "neq": ("s", "s"),
+           "length": ("s",), "index": ("s", "x")}
+
+
+def nev_string(s):
+    out = []
+    for ch in s:
+        out.append({"\\": "\\\\", "\"": "\\\"", "\n": "\\n", "\t": "\\t"}.get(ch, ch))
+    return "\"%s\"" % "".join(out)
+
+
+def gen_string_cases(rng, reps):
+    """-> list of {op, operands: [(role, value[, kind])]}; the empty string first in every cell"""
+    cases = []
+    for op, roles in STR_OPS.items():
+        for r in range(reps):
+            ops = []
+            for pos, role in enumerate(roles):
+                if role == "s":
+                    if r < len(roles) and pos == r:
+                        v = ""                       # the empty string in every position in turn
+                    elif r == len(roles):
+                        v = ""                       # ... and everywhere at once
+                    else:
+                        v = rng.choice(STR_VALUES)
+                    ops.append(("s", v))
+                elif role == "c":
+                    ops.append(("c", rng.choice(CHAR_VALUES)))
+                elif role == "n":
+                    kind = ARR_KINDS[(r + pos) % 4]
+                    ops.append(("n", ac.pick_value(rng, kind, 0.5), kind))
+                else:
+                    s = ops[0][1]
+                    ops.append(("x", rng.choice([0, max(0, len(s) - 1), len(s) // 2, len(s), -1]) if rng.random() < 0.8
+                                else rng.randrange(-2, len(s) + 2)))
+            if op in ("eq", "neq") and r % 3 == 1:
+                ops[1] = ops[0]
+            cases.append({"op": op, "operands": ops})
+    return cases
+
+
+def string_operand_kinds(case):
+    names = {"s": "string", "c": "char", "x": "int"}
+    return ",".join(names[o[0]] if o[0] != "n" else ac.KIND_TY[o[2]] for o in case["operands"])
+
+
+def string_program(case, forms):
+    """main prints `[<result>]`; operand i literal (forms[i] == 'lit') or held in a variable"""
+    binds, texts = [], []
+    for i, (o, f) in enumerate(zip(case["operands"], forms)):
+        if o[0] == "s":
+            lit = nev_string(o[1])
+        elif o[0] == "c":
+            lit = "'%s'" % o[1]
+        elif o[0] == "x":
+            lit = al.lit_int(o[1])
+        else:
+            lit = ac.expr_text(ac.value_tree(o[2], o[1]), lambda j, leaf: ac.lit_text(leaf, {}))
+        if f == "lit":
+            texts.append(lit)
+        else:
+            binds.append("var v%d = %s;" % (i, lit))
+            texts.append("v%d" % i)
+    op = case["op"]
+    if op in ("cat", "cat_sc", "cat_cs", "cat_sn", "cat_ns"):
+        body, ret = "prints(\"[\" + (%s + %s) + \"]\\n\"); 0" % tuple(texts), "int"
+    elif op == "cat3":
+        body = "prints(\"[\" + (%s + %s + %s) + \"]\\n\"); 0" % tuple(texts)
+    elif op in ("eq", "neq"):
+        body = "(%s %s %s) ? 1 : 0" % (texts[0], "==" if op == "eq" else "!=", texts[1])
+    elif op == "length":
+        body = "length(%s)" % texts[0]
+    else:
+        body = "var c = %s[%s]; prints(\"[\" + c + \"]\\n\"); 0" % tuple(texts)
+    return "func main() -> int { %s %s }" % (" ".join(binds), body)
+
+
+def string_outcome(rec):
+    """whole observable outcome of a run: (everything printed, result / exception)"""
+    if rec is None:
+        return ("", ("crash", "driver-lost"))
+    txt = "\n".join(l for l in rec["lines"] if not (l.startswith("machine:") or l.startswith("\t")))
+    o = al.classify_run(rec)
+    if o[0] == "crash":
+        o = ("crash", "assert" if o[1].startswith("assert") else o[1])
+    return (txt.strip("\n"), o)
+
+
+def string_reference(case):
+    """expected (text, outcome) for the cases the Python reference covers, else None"""
+    op, ops = case["op"], case["operands"]
+
+    def txt(o):
+        if o[0] in ("s", "c"):
+            return o[1]
+        kind, v = o[2], o[1]
+        return str(v) if kind in "il" else ac.fmt_fixed2(kind, v)
+    if op.startswith("cat"):
+        return ("[%s]" % "".join(txt(o) for o in ops), ("val", "int", 0))
+    if op in ("eq", "neq"):
+        return ("", ("val", "int", int((ops[0][1] == ops[1][1]) == (op == "eq"))))
+    if op == "length":
+        return ("", ("val", "int", len(ops[0][1])))
+    s, i = ops[0][1], ops[1][1]
+    if 0 <= i < len(s):
+        return ("[%s]" % s[i], ("val", "int", 0))
+    return None
